@@ -126,6 +126,36 @@ CLAIMED = {
             'floats as reals; 6-candle concrete sessions with symbolic account parameters; one prior session; metrics not observed here '
             '(C16); a fresh process is modelled by a fork of a process that imported jesse but never ran a session',
             TECH),
+    'C13': ('DESIGN.md C13',
+            'Bounded solver-based check: every public indicator with a sequential parameter that can run on proxy values (numpy shim + '
+            'python source of the numba kernels) is executed on n symbolic candles and on every prefix on the same path; z3 proves every '
+            'entry of the prefix series equal to the full series (NaN pattern concrete). Indicators that cannot be encoded or exceed the '
+            'per-indicator budget are listed under not_encoded in the evidence and are not claimed. Six non-causal indicators are known findings.',
+            'floats as reals; transcendental functions uninterpreted; 7 (10) candles; integer periods lowered to 2/3; the claim covers the '
+            'indicators listed as encoded in the evidence of the run',
+            TECH),
+    'C14': ('DESIGN.md C14',
+            'Bounded solver-based check: every encodable public indicator on n symbolic candles with the warm-up window configured to 6: '
+            'the sequential result has n entries per field, its last entry equals the non-sequential result (n <= 6), and the non-sequential '
+            'result on a longer input equals the sequential result on the trailing window (z3 equality).',
+            'floats as reals; lengths 5 and 8 (4, 6, 9 thorough); periods lowered to 2/3; None and NaN are the same observation; the claim '
+            'covers the indicators listed as encoded',
+            TECH),
+    'C15': ('DESIGN.md C15',
+            'Bounded solver-based differential check: the real indicator and a short textbook reference run on the same symbolic candles; '
+            'z3 proves equality (within 1e-6 absolute, because implementations fold constants such as 1/period in binary64) for trailing-window '
+            'indicators and EMA-type recurrences with the seed actually used, the recurrence step of Wilder-type smoothers, ma(matype) against '
+            'the selected average, ranges, band ordering, channel enclosure, non-negativity and price homogeneity with a symbolic factor.',
+            'floats as reals; 5-8 candles and periods 2-3 (2-5 and 10/30/60 on 64 candles for linear ones in thorough); cci / adx family / mfi '
+            'only through their ranges',
+            TECH),
+    'C16': ('DESIGN.md C16',
+            'Bounded solver-based check: the unmodified metrics.trades and ratio helpers run on real pandas with dtype=object columns holding '
+            'proxies (real ClosedTrade objects built from symbolic fills, symbolic daily balances); z3 proves every identity of the statement; '
+            'equity samples are recomputed from the real account objects in 1-2 day sessions with symbolic starting balance, fee and quantity.',
+            'floats as reals; pandas mean/std/sum/prod/min/max/cumprod and Expanding.max replaced for object dtype only by textbook definitions; '
+            '1-3 (4) trades, 2-3 (5) daily balances; CAGR/Calmar/serenity (fractional powers) outside; one known finding (Sortino denominator)',
+            TECH),
 }
 
 NOT_YET = {}
